@@ -63,7 +63,9 @@ impl<T> EventSource for Park<'_, T> {
         let wait_co = &self.queue.wait_co;
         wait_co.store(Blocker::new_coroutine(co));
         // re-check the state, only clear once after resume
-        if !self.queue.queue.is_empty() {
+        // the sender may have been dropped after our last try_recv, its wake up
+        // would find no waiter registered yet
+        if !self.queue.queue.is_empty() || self.queue.channels.load(Ordering::Relaxed) == 0 {
             if let Some(co) = wait_co.take() {
                 run_coroutine(co.into_coroutine());
             }
